@@ -84,7 +84,11 @@ pub fn has_adjacent_mn(n: &MNode) -> bool {
         false
     }
     // children that render nothing are removed first and do not keep two numbers apart
+    // (only elements that lay their children out in a row: base and script of an msup are not "side by side")
     n.any(&|k| {
+        if !["math", "mrow", "msqrt", "mstyle", "mpadded", "menclose", "mtd", "merror", "mphantom"].contains(&k.tag.as_str()) {
+            return false;
+        }
         let visible: Vec<&MNode> = k.kids.iter().filter(|c| !renders_nothing(c)).collect();
         visible.windows(2).any(|w| numberish(w[0]) && numberish(w[1]))
     })
@@ -111,10 +115,11 @@ pub fn input_trigger(input: &MNode) -> Option<&'static str> {
         Some("adjacent-similar-wrappers")
     } else if has_degenerate(input) {
         Some("degenerate-child")
-    } else if has_adjacent_mn(input) {
-        Some("adjacent-mn")
     } else if has_mi_run_in_wrapper(input) {
         Some("multi-child-wrapper")
+    } else if has_adjacent_mn(input) {
+        // repaired by a fix: commit (listed as fixed): named after the open classes so that it never hides one of them
+        Some("adjacent-mn")
     } else if input.tokens().iter().any(|t| lookalike.is_match(t.txt())) {
         // repaired by a fix: commit (listed as fixed): named last so that it never hides another class
         Some("text-resembling-markup")
